@@ -1,8 +1,11 @@
 package symgo
 
-// SMT terms: a small DAG with light-weight simplification. Sorts are Bool (w == 0)
-// and fixed-width bit-vectors (w in 8,16,32,64 and the odd widths produced by
-// extract/concat).
+// SMT terms: a hash-consed DAG with a bit-slice normal form. Sorts are Bool (w == 0) and
+// fixed-width bit-vectors. Shifts/masks by constants, zero extensions, extracts and
+// bit-wise or/and/xor over disjoint fields are normalised into concatenations of slices
+// ("pieces"), so that code which takes a word apart and re-assembles it (RoaringBitmap's
+// high/low keys, binary.LittleEndian) yields syntactically equal terms and equalities
+// split per field — most such comparisons then fold without a solver call.
 
 import (
 	"fmt"
@@ -13,16 +16,97 @@ import (
 )
 
 type term struct {
-	op   string // "const", "var", or an SMT-LIB operator ("bvadd", "(_ extract 7 0)", ...)
-	args []*term
-	w    int // 0 = Bool
-	val  uint64
-	name string
-	id   uint64
-	size int // number of nodes as a tree (saturating)
-	vars []*term
+	op     string // const, var, not, and, or, =, ite, bv*, extract, zext, sext, concat
+	args   []*term
+	w      int // 0 = Bool
+	val    uint64
+	name   string
+	p1, p2 int // extract: hi, lo; zext/sext: added bits
+	id     uint64
+	size   int // number of nodes as a tree (saturating)
+
+	vars     []*term
 	varsDone bool
 }
+
+var termCounter uint64
+
+type termKey struct {
+	op      string
+	w       int
+	a, b, c *term
+	val     uint64
+	p1, p2  int
+}
+
+const termShards = 64
+
+var termTab [termShards]struct {
+	mu sync.Mutex
+	m  map[termKey]*term
+}
+
+func init() { ResetTerms() }
+
+// ResetTerms drops the intern table (call only when no exploration is running).
+func ResetTerms() {
+	for i := range termTab {
+		termTab[i].mu.Lock()
+		termTab[i].m = map[termKey]*term{}
+		termTab[i].mu.Unlock()
+	}
+}
+
+func intern(k termKey, mk func() *term) *term {
+	h := uint64(len(k.op))*31 + uint64(k.w)*131 + k.val*2654435761 + uint64(k.p1)*7919 + uint64(k.p2)*104729
+	if k.a != nil {
+		h = h*1099511628211 + k.a.id
+	}
+	if k.b != nil {
+		h = h*1099511628211 + k.b.id
+	}
+	if k.c != nil {
+		h = h*1099511628211 + k.c.id
+	}
+	for i := 0; i < len(k.op); i++ {
+		h = h*131 + uint64(k.op[i])
+	}
+	sh := &termTab[h%termShards]
+	sh.mu.Lock()
+	t, ok := sh.m[k]
+	if !ok {
+		t = mk()
+		sh.m[k] = t
+	}
+	sh.mu.Unlock()
+	return t
+}
+
+func newTermP(op string, w, p1, p2 int, args ...*term) *term {
+	k := termKey{op: op, w: w, p1: p1, p2: p2}
+	switch len(args) {
+	case 3:
+		k.c = args[2]
+		fallthrough
+	case 2:
+		k.b = args[1]
+		fallthrough
+	case 1:
+		k.a = args[0]
+	}
+	return intern(k, func() *term {
+		sz := 1
+		for _, a := range args {
+			sz += a.size
+			if sz > 1<<30 {
+				sz = 1 << 30
+			}
+		}
+		return &term{op: op, w: w, p1: p1, p2: p2, args: args, id: atomic.AddUint64(&termCounter, 1), size: sz}
+	})
+}
+
+func newTerm(op string, w int, args ...*term) *term { return newTermP(op, w, 0, 0, args...) }
 
 // varsOf returns the variables occurring in t (cached; terms are immutable).
 func (t *term) varsOf() []*term {
@@ -47,85 +131,6 @@ func (t *term) varsOf() []*term {
 	}
 	t.vars, t.varsDone = out, true
 	return out
-}
-
-var termCounter uint64
-
-// Hash-consing: structurally equal terms are the same pointer (per process), which makes
-// syntactic checks and the branch-query cache cheap. The table is sharded to keep
-// contention between workers low, and is dropped between harnesses (ResetTerms).
-type termKey struct {
-	op      string
-	w       int
-	a, b, c *term
-	val     uint64
-}
-
-const termShards = 64
-
-var termTab [termShards]struct {
-	mu sync.Mutex
-	m  map[termKey]*term
-}
-
-func init() { ResetTerms() }
-
-// ResetTerms drops the intern table (call only when no exploration is running).
-func ResetTerms() {
-	for i := range termTab {
-		termTab[i].mu.Lock()
-		termTab[i].m = map[termKey]*term{}
-		termTab[i].mu.Unlock()
-	}
-}
-
-func intern(k termKey, mk func() *term) *term {
-	h := uint64(len(k.op))*31 + uint64(k.w)*131 + k.val*2654435761
-	if k.a != nil {
-		h = h*1099511628211 + k.a.id
-	}
-	if k.b != nil {
-		h = h*1099511628211 + k.b.id
-	}
-	if k.c != nil {
-		h = h*1099511628211 + k.c.id
-	}
-	for i := 0; i < len(k.op); i++ {
-		h = h*131 + uint64(k.op[i])
-	}
-	sh := &termTab[h%termShards]
-	sh.mu.Lock()
-	t, ok := sh.m[k]
-	if !ok {
-		t = mk()
-		sh.m[k] = t
-	}
-	sh.mu.Unlock()
-	return t
-}
-
-func newTerm(op string, w int, args ...*term) *term {
-	k := termKey{op: op, w: w}
-	switch len(args) {
-	case 3:
-		k.c = args[2]
-		fallthrough
-	case 2:
-		k.b = args[1]
-		fallthrough
-	case 1:
-		k.a = args[0]
-	}
-	return intern(k, func() *term {
-		sz := 1
-		for _, a := range args {
-			sz += a.size
-			if sz > 1<<30 {
-				sz = 1 << 30
-			}
-		}
-		return &term{op: op, w: w, args: args, id: atomic.AddUint64(&termCounter, 1), size: sz}
-	})
 }
 
 func mask(w int) uint64 {
@@ -167,7 +172,7 @@ func (t *term) isConst() bool { return t.op == "const" }
 func (t *term) isTrue() bool  { return t.op == "const" && t.w == 0 && t.val != 0 }
 func (t *term) isFalse() bool { return t.op == "const" && t.w == 0 && t.val == 0 }
 
-// same reports syntactic identity (pointer equality, equal constants or equal variables).
+// same reports syntactic identity (terms are hash-consed).
 func same(a, b *term) bool {
 	if a == b {
 		return true
@@ -198,6 +203,8 @@ func mkAnd(a, b *term) *term {
 		return a
 	case same(a, b):
 		return a
+	case a == mkNot(b):
+		return termFalse
 	}
 	if a.id > b.id {
 		a, b = b, a
@@ -215,52 +222,13 @@ func mkOr(a, b *term) *term {
 		return a
 	case same(a, b):
 		return a
+	case a == mkNot(b):
+		return termTrue
 	}
 	if a.id > b.id {
 		a, b = b, a
 	}
 	return newTerm("or", 0, a, b)
-}
-
-func mkEq(a, b *term) *term {
-	if a.w != b.w {
-		panic(fmt.Sprintf("mkEq: width mismatch %d vs %d", a.w, b.w))
-	}
-	if a.isConst() && b.isConst() {
-		return mkBool(a.val == b.val)
-	}
-	if same(a, b) {
-		return termTrue
-	}
-	if a.w == 0 {
-		if a.isTrue() {
-			return b
-		}
-		if b.isTrue() {
-			return a
-		}
-		if a.isFalse() {
-			return mkNot(b)
-		}
-		if b.isFalse() {
-			return mkNot(a)
-		}
-	}
-	// (= (zero_extend k x) const): decide on the high bits
-	if b.isConst() && strings.HasPrefix(a.op, "(_ zero_extend") {
-		in := a.args[0]
-		if b.val&^mask(in.w) != 0 {
-			return termFalse
-		}
-		return mkEq(in, mkConst(b.val, in.w))
-	}
-	if a.isConst() && strings.HasPrefix(b.op, "(_ zero_extend") {
-		return mkEq(b, a)
-	}
-	if a.id > b.id {
-		a, b = b, a
-	}
-	return newTerm("=", 0, a, b)
 }
 
 func mkIte(c, a, b *term) *term {
@@ -292,8 +260,330 @@ func sext(v uint64, w int) int64 {
 	return int64(v<<s) >> s
 }
 
-// mkBV builds a bit-vector operation with constant folding.
+// ---------------------------------------------------------------- bit-slice normal form
+
+// piece list: most significant first. A term's pieces are: the parts of a concat,
+// [zeros, x] for a zero extension, or the term itself.
+func piecesOf(t *term) []*term {
+	switch t.op {
+	case "concat":
+		var out []*term
+		for _, a := range t.args {
+			out = append(out, piecesOf(a)...)
+		}
+		return out
+	case "zext":
+		return append([]*term{mkConst(0, t.p1)}, piecesOf(t.args[0])...)
+	}
+	return []*term{t}
+}
+
+// fromPieces builds the normal form of a piece list.
+func fromPieces(ps []*term) *term {
+	// merge adjacent constants and adjacent contiguous extracts of the same base
+	var out []*term
+	for _, p := range ps {
+		if p.w == 0 {
+			panic("fromPieces: zero-width piece")
+		}
+		if n := len(out); n > 0 {
+			q := out[n-1]
+			if q.isConst() && p.isConst() && q.w+p.w <= 64 {
+				out[n-1] = mkConst(q.val<<uint(p.w)|p.val, q.w+p.w)
+				continue
+			}
+			qb, qh, ql := sliceOf(q)
+			pb, ph, pl := sliceOf(p)
+			if qb == pb && !qb.isConst() && ql == ph+1 {
+				out[n-1] = mkExtractRaw(qh, pl, qb)
+				continue
+			}
+		}
+		out = append(out, p)
+	}
+	if len(out) == 1 {
+		return out[0]
+	}
+	w := 0
+	for _, p := range out {
+		w += p.w
+	}
+	if out[0].isConst() && out[0].val == 0 {
+		rest := fromPiecesNoMerge(out[1:])
+		return newTermP("zext", w, out[0].w, 0, rest)
+	}
+	return fromPiecesNoMerge(out)
+}
+
+func fromPiecesNoMerge(ps []*term) *term {
+	if len(ps) == 1 {
+		return ps[0]
+	}
+	lo := fromPiecesNoMerge(ps[1:])
+	return newTerm("concat", ps[0].w+lo.w, ps[0], lo)
+}
+
+// sliceOf views t as base[hi:lo].
+func sliceOf(t *term) (*term, int, int) {
+	if t.op == "extract" {
+		return t.args[0], t.p1, t.p2
+	}
+	return t, t.w - 1, 0
+}
+
+func mkExtractRaw(hi, lo int, a *term) *term {
+	if lo == 0 && hi == a.w-1 {
+		return a
+	}
+	return newTermP("extract", hi-lo+1, hi, lo, a)
+}
+
+// splitAt cuts the piece list at the given bit positions (counted from the least
+// significant bit of the whole word).
+func splitAt(ps []*term, cuts map[int]bool) []*term {
+	w := 0
+	for _, p := range ps {
+		w += p.w
+	}
+	var out []*term
+	pos := w
+	for _, p := range ps {
+		top, bot := pos, pos-p.w
+		hi := top
+		for c := top - 1; c > bot; c-- {
+			if cuts[c] {
+				out = append(out, mkExtract(hi-bot-1, c-bot, p))
+				hi = c
+			}
+		}
+		out = append(out, mkExtract(hi-bot-1, 0, p))
+		pos = bot
+	}
+	return out
+}
+
+func boundaries(ps []*term) []int {
+	w := 0
+	for _, p := range ps {
+		w += p.w
+	}
+	var bs []int
+	pos := w
+	for _, p := range ps[:len(ps)-1] {
+		pos -= p.w
+		bs = append(bs, pos)
+	}
+	return bs
+}
+
+// align refines two piece lists of equal total width to common boundaries.
+func align(a, b []*term) ([]*term, []*term) {
+	cuts := map[int]bool{}
+	for _, c := range boundaries(a) {
+		cuts[c] = true
+	}
+	for _, c := range boundaries(b) {
+		cuts[c] = true
+	}
+	return splitAt(a, cuts), splitAt(b, cuts)
+}
+
+func mkExtract(hi, lo int, a *term) *term {
+	w := hi - lo + 1
+	if lo == 0 && w == a.w {
+		return a
+	}
+	if hi >= a.w || lo < 0 || hi < lo {
+		panic(fmt.Sprintf("mkExtract [%d:%d] of width %d", hi, lo, a.w))
+	}
+	if a.isConst() {
+		return mkConst(a.val>>uint(lo), w)
+	}
+	switch a.op {
+	case "extract":
+		return mkExtract(a.p2+hi, a.p2+lo, a.args[0])
+	case "concat", "zext":
+		ps := piecesOf(a)
+		var out []*term
+		pos := a.w
+		for _, p := range ps {
+			top, bot := pos-1, pos-p.w // bits [top..bot] of a
+			pos = bot
+			if top < lo || bot > hi {
+				continue
+			}
+			h, l := hi, lo
+			if top < h {
+				h = top
+			}
+			if bot > l {
+				l = bot
+			}
+			out = append(out, mkExtract(h-bot, l-bot, p))
+		}
+		return fromPieces(out)
+	case "sext":
+		in := a.args[0]
+		if hi < in.w {
+			return mkExtract(hi, lo, in)
+		}
+	case "bvand", "bvor", "bvxor":
+		return mkBV(a.op, w, mkExtract(hi, lo, a.args[0]), mkExtract(hi, lo, a.args[1]))
+	case "bvnot":
+		return mkBVNot(mkExtract(hi, lo, a.args[0]))
+	case "ite":
+		if a.args[1].isConst() || a.args[2].isConst() {
+			return mkIte(a.args[0], mkExtract(hi, lo, a.args[1]), mkExtract(hi, lo, a.args[2]))
+		}
+	case "bvadd", "bvsub", "bvmul":
+		if lo == 0 {
+			// low bits of +,-,* depend only on the low bits of the operands
+			return mkBV(a.op, w, mkExtract(hi, 0, a.args[0]), mkExtract(hi, 0, a.args[1]))
+		}
+	}
+	return mkExtractRaw(hi, lo, a)
+}
+
+func mkZext(to int, a *term) *term {
+	if a.w == to {
+		return a
+	}
+	if a.isConst() {
+		return mkConst(a.val, to)
+	}
+	return fromPieces(append([]*term{mkConst(0, to-a.w)}, piecesOf(a)...))
+}
+
+func mkSext(to int, a *term) *term {
+	if a.w == to {
+		return a
+	}
+	if a.isConst() {
+		return mkConst(uint64(sext(a.val, a.w)), to)
+	}
+	if a.op == "zext" {
+		return mkZext(to, a) // the sign bit is a known zero
+	}
+	return newTermP("sext", to, to-a.w, 0, a)
+}
+
+func isZeroConst(t *term) bool { return t.isConst() && t.val == 0 }
+func isOnesConst(t *term) bool { return t.isConst() && t.val == mask(t.w) }
+
+// constRuns splits a constant into maximal runs of equal bits (most significant first).
+func constRuns(c *term) []*term {
+	var out []*term
+	i := c.w - 1
+	for i >= 0 {
+		b := (c.val >> uint(i)) & 1
+		j := i
+		for j >= 0 && (c.val>>uint(j))&1 == b {
+			j--
+		}
+		n := i - j
+		if b == 1 {
+			out = append(out, mkConst(mask(n), n))
+		} else {
+			out = append(out, mkConst(0, n))
+		}
+		i = j
+	}
+	return out
+}
+
+// bitwise tries to compute a op b field by field; ok is false if some field needs a real
+// operator node (then the caller emits one node for the whole word).
+func bitwise(op string, w int, a, b *term) (*term, bool) {
+	pa, pb := piecesOf(a), piecesOf(b)
+	if len(pa) == 1 && len(pb) == 1 && !a.isConst() && !b.isConst() {
+		return nil, false
+	}
+	expand := func(ps []*term) []*term {
+		var out []*term
+		for _, p := range ps {
+			if p.isConst() && !isZeroConst(p) && !isOnesConst(p) {
+				if runs := constRuns(p); len(runs) <= 6 {
+					out = append(out, runs...)
+					continue
+				}
+			}
+			out = append(out, p)
+		}
+		return out
+	}
+	pa, pb = align(expand(pa), expand(pb))
+	out := make([]*term, len(pa))
+	for i := range pa {
+		x, y := pa[i], pb[i]
+		if y.isConst() && !x.isConst() {
+			x, y = y, x
+		}
+		switch {
+		case x.isConst() && y.isConst():
+			var v uint64
+			switch op {
+			case "bvor":
+				v = x.val | y.val
+			case "bvand":
+				v = x.val & y.val
+			default:
+				v = x.val ^ y.val
+			}
+			out[i] = mkConst(v, x.w)
+		case isZeroConst(x):
+			if op == "bvand" {
+				out[i] = x
+			} else {
+				out[i] = y
+			}
+		case isOnesConst(x):
+			switch op {
+			case "bvor":
+				out[i] = x
+			case "bvand":
+				out[i] = y
+			default:
+				out[i] = mkBVNot(y)
+			}
+		case x == y:
+			if op == "bvxor" {
+				out[i] = mkConst(0, x.w)
+			} else {
+				out[i] = x
+			}
+		default:
+			return nil, false
+		}
+	}
+	return fromPieces(out), true
+}
+
+// disjointOr: if in every field at least one operand is a zero constant, a+b is a|b.
+func disjointOr(a, b *term) (*term, bool) {
+	pa, pb := piecesOf(a), piecesOf(b)
+	if len(pa) == 1 && len(pb) == 1 {
+		return nil, false
+	}
+	pa, pb = align(pa, pb)
+	out := make([]*term, len(pa))
+	for i := range pa {
+		switch {
+		case isZeroConst(pa[i]):
+			out[i] = pb[i]
+		case isZeroConst(pb[i]):
+			out[i] = pa[i]
+		default:
+			return nil, false
+		}
+	}
+	return fromPieces(out), true
+}
+
+// mkBV builds a bit-vector operation with constant folding and slice normalisation.
 func mkBV(op string, w int, a, b *term) *term {
+	if a.w != w || b.w != w {
+		panic(fmt.Sprintf("mkBV %s: operand widths %d,%d for result %d", op, a.w, b.w, w))
+	}
 	if a.isConst() && b.isConst() {
 		x, y := a.val, b.val
 		switch op {
@@ -342,28 +632,68 @@ func mkBV(op string, w int, a, b *term) *term {
 			}
 		}
 	}
-	// identities
 	switch op {
-	case "bvadd", "bvor", "bvxor":
-		if a.isConst() && a.val == 0 {
+	case "bvshl":
+		if b.isConst() {
+			if b.val >= uint64(w) {
+				return mkConst(0, w)
+			}
+			c := int(b.val)
+			if c == 0 {
+				return a
+			}
+			return fromPieces(append(piecesOf(mkExtract(w-1-c, 0, a)), mkConst(0, c)))
+		}
+	case "bvlshr":
+		if b.isConst() {
+			if b.val >= uint64(w) {
+				return mkConst(0, w)
+			}
+			c := int(b.val)
+			if c == 0 {
+				return a
+			}
+			return fromPieces(append([]*term{mkConst(0, c)}, piecesOf(mkExtract(w-1, c, a))...))
+		}
+	case "bvashr":
+		if b.isConst() && b.val == 0 {
+			return a
+		}
+		if b.isConst() && a.op == "zext" {
+			return mkBV("bvlshr", w, a, b)
+		}
+	case "bvor", "bvand", "bvxor":
+		if same(a, b) {
+			if op == "bvxor" {
+				return mkConst(0, w)
+			}
+			return a
+		}
+		if r, ok := bitwise(op, w, a, b); ok {
+			return r
+		}
+		if a.id > b.id {
+			a, b = b, a
+		}
+	case "bvadd":
+		if isZeroConst(a) {
 			return b
 		}
-		if b.isConst() && b.val == 0 {
+		if isZeroConst(b) {
 			return a
 		}
-	case "bvsub", "bvshl", "bvlshr", "bvashr":
-		if b.isConst() && b.val == 0 {
+		if r, ok := disjointOr(a, b); ok {
+			return r
+		}
+		if a.id > b.id {
+			a, b = b, a
+		}
+	case "bvsub":
+		if isZeroConst(b) {
 			return a
 		}
-	case "bvand":
-		if (a.isConst() && a.val == 0) || (b.isConst() && b.val == 0) {
+		if same(a, b) {
 			return mkConst(0, w)
-		}
-		if a.isConst() && a.val == mask(w) {
-			return b
-		}
-		if b.isConst() && b.val == mask(w) {
-			return a
 		}
 	case "bvmul":
 		if a.isConst() && a.val == 1 {
@@ -372,12 +702,91 @@ func mkBV(op string, w int, a, b *term) *term {
 		if b.isConst() && b.val == 1 {
 			return a
 		}
-		if (a.isConst() && a.val == 0) || (b.isConst() && b.val == 0) {
+		if isZeroConst(a) || isZeroConst(b) {
 			return mkConst(0, w)
 		}
+		if b.isConst() && b.val&(b.val-1) == 0 {
+			return mkBV("bvshl", w, a, mkConst(uint64(bits.TrailingZeros64(b.val)), w))
+		}
+		if a.isConst() && a.val&(a.val-1) == 0 {
+			return mkBV("bvshl", w, b, mkConst(uint64(bits.TrailingZeros64(a.val)), w))
+		}
+		if a.id > b.id {
+			a, b = b, a
+		}
+	case "bvudiv":
+		if b.isConst() && b.val != 0 && b.val&(b.val-1) == 0 {
+			return mkBV("bvlshr", w, a, mkConst(uint64(bits.TrailingZeros64(b.val)), w))
+		}
+	case "bvurem":
+		if b.isConst() && b.val != 0 && b.val&(b.val-1) == 0 {
+			return mkBV("bvand", w, a, mkConst(b.val-1, w))
+		}
 	}
-	// shifts by constants on zero-extended small values stay as they are; solver handles them.
 	return newTerm(op, w, a, b)
+}
+
+func mkEq(a, b *term) *term {
+	if a.w != b.w {
+		panic(fmt.Sprintf("mkEq: width mismatch %d vs %d", a.w, b.w))
+	}
+	if a.isConst() && b.isConst() {
+		return mkBool(a.val == b.val)
+	}
+	if same(a, b) {
+		return termTrue
+	}
+	if a.w == 0 {
+		if a.isTrue() {
+			return b
+		}
+		if b.isTrue() {
+			return a
+		}
+		if a.isFalse() {
+			return mkNot(b)
+		}
+		if b.isFalse() {
+			return mkNot(a)
+		}
+		if a == mkNot(b) {
+			return termFalse
+		}
+	} else {
+		pa, pb := piecesOf(a), piecesOf(b)
+		if len(pa) > 1 || len(pb) > 1 {
+			// equality of concatenations splits per field
+			pa, pb = align(pa, pb)
+			r := termTrue
+			for i := range pa {
+				r = mkAnd(r, mkEq(pa[i], pb[i]))
+				if r.isFalse() {
+					return termFalse
+				}
+			}
+			return r
+		}
+		if b.isConst() && a.op == "ite" {
+			a, b = b, a
+		}
+		if a.isConst() && b.op == "ite" && b.args[1].isConst() && b.args[2].isConst() {
+			t, e := b.args[1].val == a.val, b.args[2].val == a.val
+			switch {
+			case t && e:
+				return termTrue
+			case t:
+				return b.args[0]
+			case e:
+				return mkNot(b.args[0])
+			default:
+				return termFalse
+			}
+		}
+	}
+	if a.id > b.id {
+		a, b = b, a
+	}
+	return newTerm("=", 0, a, b)
 }
 
 func mkCmp(op string, a, b *term) *term {
@@ -414,64 +823,65 @@ func mkCmp(op string, a, b *term) *term {
 			return termTrue
 		}
 	}
-	// comparisons of zero-extended values against constants that cannot be reached
-	if b.isConst() && strings.HasPrefix(a.op, "(_ zero_extend") {
-		in := a.args[0]
-		if b.val > mask(in.w) && sext(b.val, b.w) >= 0 {
-			switch op {
-			case "bvult", "bvule", "bvslt", "bvsle":
+	// normalise to bvult / bvslt and their negations
+	switch op {
+	case "bvugt":
+		return mkCmp("bvult", b, a)
+	case "bvuge":
+		return mkNot(mkCmp("bvult", a, b))
+	case "bvule":
+		return mkNot(mkCmp("bvult", b, a))
+	case "bvsgt":
+		return mkCmp("bvslt", b, a)
+	case "bvsge":
+		return mkNot(mkCmp("bvslt", a, b))
+	case "bvsle":
+		return mkNot(mkCmp("bvslt", b, a))
+	}
+	pa, pb := piecesOf(a), piecesOf(b)
+	if len(pa) > 1 || len(pb) > 1 {
+		pa, pb = align(pa, pb)
+		// signed comparison of values whose top field is a shared zero constant is unsigned
+		if op == "bvslt" && isZeroConst(pa[0]) && isZeroConst(pb[0]) {
+			op = "bvult"
+		}
+		if op == "bvult" {
+			// equal leading fields cancel
+			i := 0
+			for i < len(pa)-1 && pa[i] == pb[i] {
+				i++
+			}
+			if i > 0 {
+				return mkCmp("bvult", fromPieces(pa[i:]), fromPieces(pb[i:]))
+			}
+			if isZeroConst(pa[0]) && pb[0].isConst() && pb[0].val != 0 {
 				return termTrue
-			case "bvugt", "bvuge", "bvsgt", "bvsge":
+			}
+			if isZeroConst(pb[0]) && pa[0].isConst() && pa[0].val != 0 {
 				return termFalse
 			}
+		}
+	}
+	if op == "bvult" {
+		if isZeroConst(b) {
+			return termFalse
+		}
+		if b.isConst() && b.val == 1 {
+			return mkEq(a, mkConst(0, a.w))
+		}
+		if isOnesConst(a) {
+			return termFalse
 		}
 	}
 	return newTerm(op, 0, a, b)
 }
 
-func mkExtract(hi, lo int, a *term) *term {
-	w := hi - lo + 1
-	if a.isConst() {
-		return mkConst(a.val>>uint(lo), w)
-	}
-	if lo == 0 && w == a.w {
-		return a
-	}
-	if lo == 0 && (strings.HasPrefix(a.op, "(_ zero_extend") || strings.HasPrefix(a.op, "(_ sign_extend")) {
-		in := a.args[0]
-		if in.w == w {
-			return in
-		}
-		if in.w > w {
-			return mkExtract(hi, lo, in)
-		}
-	}
-	return newTerm(fmt.Sprintf("(_ extract %d %d)", hi, lo), w, a)
-}
-
-func mkZext(to int, a *term) *term {
-	if a.w == to {
-		return a
-	}
-	if a.isConst() {
-		return mkConst(a.val, to)
-	}
-	return newTerm(fmt.Sprintf("(_ zero_extend %d)", to-a.w), to, a)
-}
-
-func mkSext(to int, a *term) *term {
-	if a.w == to {
-		return a
-	}
-	if a.isConst() {
-		return mkConst(uint64(sext(a.val, a.w)), to)
-	}
-	return newTerm(fmt.Sprintf("(_ sign_extend %d)", to-a.w), to, a)
-}
-
 func mkBVNot(a *term) *term {
 	if a.isConst() {
 		return mkConst(^a.val, a.w)
+	}
+	if a.op == "bvnot" {
+		return a.args[0]
 	}
 	return newTerm("bvnot", a.w, a)
 }
@@ -611,31 +1021,18 @@ func (t *term) eval(m map[string]uint64, memo map[*term]uint64) (uint64, bool) {
 		}
 	case "bvult":
 		r = b2u(vs[0] < vs[1])
-	case "bvule":
-		r = b2u(vs[0] <= vs[1])
-	case "bvugt":
-		r = b2u(vs[0] > vs[1])
-	case "bvuge":
-		r = b2u(vs[0] >= vs[1])
 	case "bvslt":
 		r = b2u(sext(vs[0], aw) < sext(vs[1], aw))
-	case "bvsle":
-		r = b2u(sext(vs[0], aw) <= sext(vs[1], aw))
-	case "bvsgt":
-		r = b2u(sext(vs[0], aw) > sext(vs[1], aw))
-	case "bvsge":
-		r = b2u(sext(vs[0], aw) >= sext(vs[1], aw))
+	case "extract":
+		r = vs[0] >> uint(t.p2)
+	case "zext":
+		r = vs[0]
+	case "sext":
+		r = uint64(sext(vs[0], aw))
+	case "concat":
+		r = vs[0]<<uint(t.args[1].w) | vs[1]
 	default:
-		var a, b int
-		if n, _ := fmt.Sscanf(t.op, "(_ extract %d %d)", &a, &b); n == 2 {
-			r = vs[0] >> uint(b)
-		} else if n, _ := fmt.Sscanf(t.op, "(_ zero_extend %d)", &a); n == 1 {
-			r = vs[0]
-		} else if n, _ := fmt.Sscanf(t.op, "(_ sign_extend %d)", &a); n == 1 {
-			r = uint64(sext(vs[0], aw))
-		} else {
-			return 0, false
-		}
+		return 0, false
 	}
 	r &= maskb(w)
 	memo[t] = r
@@ -656,6 +1053,18 @@ func sortOf(w int) string {
 		return "Bool"
 	}
 	return fmt.Sprintf("(_ BitVec %d)", w)
+}
+
+func (t *term) smtOp() string {
+	switch t.op {
+	case "extract":
+		return fmt.Sprintf("(_ extract %d %d)", t.p1, t.p2)
+	case "zext":
+		return fmt.Sprintf("(_ zero_extend %d)", t.p1)
+	case "sext":
+		return fmt.Sprintf("(_ sign_extend %d)", t.p1)
+	}
+	return t.op
 }
 
 // printer writes terms for one solver session; shared sub-terms above a size threshold
@@ -696,7 +1105,7 @@ func (p *printer) prepare(t *term) string {
 	for i, a := range t.args {
 		parts[i] = p.prepare(a)
 	}
-	body := "(" + t.op + " " + strings.Join(parts, " ") + ")"
+	body := "(" + t.smtOp() + " " + strings.Join(parts, " ") + ")"
 	if t.size >= 6 {
 		name := fmt.Sprintf("t!%d", t.id)
 		fmt.Fprintf(p.out, "(define-fun %s () %s %s)\n", name, sortOf(t.w), body)
@@ -730,7 +1139,7 @@ func (t *term) short() string {
 		case "var":
 			sb.WriteString(t.name)
 		default:
-			sb.WriteString("(" + t.op)
+			sb.WriteString("(" + t.smtOp())
 			for _, a := range t.args {
 				sb.WriteString(" ")
 				rec(a)
